@@ -683,3 +683,498 @@ Proof.
   - destruct (f x), (f y); reflexivity.
   - congruence.
 Qed.
+
+(* ------------------------------------------------------------------ *)
+(* P3: merge_rest *)
+Lemma gden_split_at n : forall q r st,
+  n <= length q ->
+  gden st (map GS q ++ r) = gden (fold_left step (firstn n q) st) (skipn n (map GS q ++ r)).
+Proof.
+  induction n as [|n IH]; intros q r st Hn; [reflexivity|].
+  destruct q as [|s q]; [cbn [length] in Hn; lia|].
+  cbn [map app gden firstn fold_left skipn]. apply IH. cbn [length] in Hn. lia.
+Qed.
+
+Lemma list_eqb_firstn {A} (f : A -> A -> bool) n : forall m a b,
+  n <= m -> list_eqb f (firstn m a) (firstn m b) = true ->
+  list_eqb f (firstn n a) (firstn n b) = true.
+Proof.
+  induction n as [|n IH]; intros m a b Hn H; [reflexivity|].
+  destruct m as [|m]; [lia|].
+  destruct a as [|x a], b as [|y b]; cbn [firstn list_eqb] in *; try discriminate; auto.
+  apply andb_true_iff in H. destruct H as [H1 H2]. rewrite H1. cbn [andb].
+  apply (IH m); [lia|assumption].
+Qed.
+
+Lemma sseg_eqb_eea s t : sseg_eqb s t = true -> sseg_eea s t = true.
+Proof.
+  destruct s, t; cbn [sseg_eqb sseg_eea]; try discriminate; auto.
+  rewrite andb_true_iff. tauto.
+Qed.
+
+Lemma step_self_alias st s s' :
+  sseg_eea s s' = true -> salias s' = None ->
+  step (step st s') (Slf (salias s)) = step st s.
+Proof.
+  destruct s as [n al|al|al|al|], s' as [n' al'|al'|al'|al'|]; cbn [sseg_eea salias];
+    try discriminate; intros He Ha; subst.
+  - apply eqb_text_spec in He. subst n'. destruct al; reflexivity.
+  - destruct st as [|t st'], al as [b|]; try reflexivity.
+  - destruct al; reflexivity.
+  - destruct al; reflexivity.
+  - reflexivity.
+Qed.
+
+Lemma rest_den (rest : list gseg) st :
+  rest <> [] ->
+  flat_map (den st) (match rest with [GL rl] => rl | _ => [from_path rest] end) = gden st rest.
+Proof.
+  intros Hne.
+  assert (H : flat_map (den st) [from_path rest] = gden st rest).
+  { cbn [flat_map]. rewrite app_nil_r. unfold from_path. apply den_of_path; assumption. }
+  destruct rest as [|[s|l] [|y r]]; try exact H. reflexivity.
+Qed.
+
+Lemma good_slf al : good (from_path [GS (Slf al)]) = true.
+Proof. reflexivity. Qed.
+
+Section Merge.
+Variable cmp : tree -> tree -> comparison.
+
+Lemma sort_two_den t1 t2 st :
+  SameSet (flat_map (den st) (sort_by cmp [t1; t2])) (den st t1 ++ den st t2).
+Proof.
+  eapply SameSet_trans; [apply SameSet_flat_map_l, SameSet_perm, sort_perm|].
+  cbn [flat_map]. rewrite app_nil_r. apply SameSet_refl.
+Qed.
+
+Lemma fin_ok pa ka v a c other n :
+  good (Node pa ka v a c) = true -> good other = true ->
+  n <= length pa -> n < length (map GS pa ++ klist ka) -> n < length (path other) ->
+  firstn n (path other) = map GS (firstn n pa) ->
+  let np := firstn n (path other) ++
+            [GL (sort_by cmp [from_path (skipn n (map GS pa ++ klist ka));
+                              from_path (skipn n (path other))])] in
+  good (of_path np v a c) = true /\
+  forall st, SameSet (gden st np) (gden st (map GS pa ++ klist ka) ++ gden st (path other)).
+Proof.
+  intros Hs Ho Hn Hla Hlb Hf np. subst np. rewrite Hf.
+  pose proof (path_len_length (Node pa ka v a c)) as HL. unfold path in HL at 1. cbn [pre kids] in HL.
+  split.
+  - unfold of_path. rewrite split_path_GL, good_some.
+    rewrite (good_prefix_alias_free n pa ka v a c) by (auto; lia).
+    rewrite (forallb_perm _ _ _ (sort_perm _ cmp _)). cbn [forallb andb].
+    assert (G1 : good (from_path (skipn n (path (Node pa ka v a c)))) = true)
+      by (apply good_suffix; [assumption|lia]).
+    unfold path in G1 at 1. cbn [pre kids] in G1. rewrite G1.
+    rewrite (good_suffix n other Ho) by (rewrite <- path_len_length; lia).
+    reflexivity.
+  - intros st. rewrite gden_app_GS. cbn [gden].
+    eapply SameSet_trans; [apply sort_two_den|].
+    unfold from_path. rewrite !den_of_path by (apply skipn_nonempty; assumption).
+    rewrite (gden_split_at n pa (klist ka) st Hn).
+    assert (Eb : gden st (path other) =
+                 gden (fold_left step (firstn n pa) st) (skipn n (path other))).
+    { rewrite <- (firstn_skipn n (path other)) at 1. rewrite Hf, gden_app_GS. reflexivity. }
+    rewrite Eb. apply SameSet_refl.
+Qed.
+
+Lemma GL_last_path q k l r : map GS q ++ klist k = GL l :: r -> r = [] /\ q = [] /\ k = Some l.
+Proof.
+  destruct q as [|s q]; cbn [map app]; [|discriminate].
+  destruct k as [l'|]; cbn [klist]; [|discriminate]. intros H; inversion H; auto.
+Qed.
+
+Lemma path_cons_GS q k s r :
+  map GS q ++ klist k = GS s :: r -> exists q', q = s :: q' /\ r = map GS q' ++ klist k.
+Proof.
+  destruct q as [|s' q]; cbn [map app].
+  - destruct k; cbn [klist]; discriminate.
+  - intros H; inversion H; subst. eauto.
+Qed.
+
+(* first segment of a path of length > 1 carries no alias *)
+Lemma good_head_alias_free s q' k v a c :
+  good (Node (s :: q') k v a c) = true -> map GS q' ++ klist k <> [] -> salias s = None.
+Proof.
+  intros Hg Hne.
+  assert (H : alias_free [s] = true).
+  { apply (good_prefix_alias_free 1 (s :: q') k v a c Hg); cbn [length]; [lia|].
+    unfold path_len. cbn [pre kids length]. destruct q'; destruct k; cbn [length]; try lia.
+    cbn [map app klist] in Hne. congruence. }
+  cbn [alias_free forallb] in H. destruct (salias s); [discriminate|reflexivity].
+Qed.
+
+Lemma head_alias_free t s r :
+  good t = true -> path t = GS s :: r -> r <> [] -> salias s = None.
+Proof.
+  destruct t as [p k v a c]. unfold path. cbn [pre kids]. intros Hg Ep Hr.
+  destruct (path_cons_GS _ _ _ _ Ep) as [p' [E1 E2]]. subst p.
+  apply (good_head_alias_free s p' k v a c Hg). rewrite <- E2. assumption.
+Qed.
+
+Lemma rest_good t s r :
+  good t = true -> path t = GS s :: r -> r <> [] ->
+  forallb good (match r with [GL rl] => rl | _ => [from_path r] end) = true.
+Proof.
+  intros Hg Ep Hr.
+  assert (Hd : forallb good [from_path r] = true).
+  { cbn [forallb]. rewrite andb_true_r.
+    pose proof (good_suffix 1 t Hg) as H. rewrite Ep in H. cbn [skipn] in H.
+    apply H. rewrite <- path_len_length, Ep. cbn [length]. destruct r; [congruence|cbn [length]; lia]. }
+  destruct r as [|[s2|l2] [|y2 r2]]; try exact Hd.
+  destruct t as [p k v a c]. unfold path in Ep. cbn [pre kids] in Ep.
+  destruct (path_cons_GS _ _ _ _ Ep) as [p' [E1 E2]]. subst p.
+  destruct p' as [|s3 p'']; cbn [map app] in E2; [|discriminate].
+  destruct k as [lk|]; cbn [klist] in E2; [|discriminate]. inversion E2; subst.
+  rewrite good_some in Hg. apply andb_true_iff in Hg. tauto.
+Qed.
+
+Lemma merge_rest_ok inner pa ka v a c other :
+  let A := map GS pa ++ klist ka in
+  let b := path other in
+  let len := prefix_len true A b in
+  good (Node pa ka v a c) = true -> good other = true ->
+  root_clash A b = false ->
+  (forall l, ka = Some l -> len = length pa -> len < length b ->
+     let u := from_path (skipn len b) in
+     forallb good (inner l u) = true /\
+     forall st, SameSet (flat_map (den st) (inner l u)) (flat_map (den st) l ++ den st u)) ->
+  match merge_rest_with cmp inner pa ka b len with
+  | Some np => good (of_path np v a c) = true /\
+               forall st, SameSet (gden st np) (gden st A ++ gden st b)
+  | None => forall st, gden st b = gden st A
+  end.
+Proof.
+  intros A b len Hs Ho Hrc Hinner.
+  pose proof (prefix_len_le true A b) as [HlA Hlb]. fold len in HlA, Hlb.
+  pose proof (path_len_length (Node pa ka v a c)) as HLA.
+  unfold path in HLA at 1. cbn [pre kids] in HLA. fold A in HLA.
+  assert (HpA : path (Node pa ka v a c) = A) by reflexivity.
+  assert (HAne : A <> []) by (apply (path_nonempty (Node pa ka v a c)), good_nonempty; assumption).
+  assert (Hbne : b <> []) by (apply path_nonempty, good_nonempty; assumption).
+  assert (HlenA : length A = length pa + (if ka then 1 else 0)).
+  { unfold A. rewrite app_length, map_length. destruct ka; reflexivity. }
+  assert (HlenA2 : length pa <= length A <= length pa + 1) by (destruct ka; lia).
+  (* root facts *)
+  assert (Hroot : length A <> 1 \/ length b = 1 \/ len = 0 ->
+                  list_eqb gseg_eqb (firstn len A) (firstn len b) = true).
+  { intros Hc. destruct (Nat.eq_dec len 0) as [E0|N0]; [rewrite E0; reflexivity|].
+    apply prefix_len_eq. intros x y ra rb EA Eb He.
+    unfold root_clash in Hrc. rewrite EA, Eb in Hrc. rewrite He in Hrc. cbn [andb] in Hrc.
+    destruct (gseg_eqb x y); [reflexivity|]. cbn [negb andb] in Hrc.
+    apply negb_false_iff, andb_true_iff in Hrc. destruct Hrc as [H1 H2].
+    destruct ra; [|discriminate]. destruct rb; [discriminate|]. exfalso.
+    rewrite EA, Eb in Hc. cbn [length] in Hc. lia. }
+  assert (Hfin : forall n, n <= len -> n <= length pa -> n < length A -> n < length b ->
+                 (length A <> 1 \/ length b = 1 \/ len = 0) ->
+                 let np := firstn n b ++
+                           [GL (sort_by cmp [from_path (skipn n A); from_path (skipn n b)])] in
+                 good (of_path np v a c) = true /\
+                 forall st, SameSet (gden st np) (gden st A ++ gden st b)).
+  { intros n H1 H2 H3 H4 H5.
+    apply (fin_ok pa ka v a c other n); auto.
+    specialize (Hroot H5). apply (list_eqb_firstn _ n) in Hroot; [|assumption].
+    unfold A in Hroot. rewrite (firstn_path n pa ka H2) in Hroot.
+    apply list_eqb_gseg_GS in Hroot. exact Hroot. }
+  unfold merge_rest_with. fold A.
+  destruct (Nat.eqb_spec (length A) len) as [ElA|NlA];
+    destruct (Nat.eqb_spec (length b) len) as [Elb|Nlb]; cbn [andb negb].
+  - (* identical paths *)
+    intros st. symmetry. apply list_eqb_gseg_gden.
+    assert (Hc : length A <> 1 \/ length b = 1 \/ len = 0) by lia.
+    specialize (Hroot Hc).
+    rewrite <- ElA, firstn_all in Hroot. rewrite ElA, <- Elb, firstn_all in Hroot. exact Hroot.
+  - (* a exhausted, b longer *)
+    destruct (Nat.eqb_spec len 1) as [E1|N1].
+    + rewrite E1 in *.
+      destruct A as [|x [|x2 ra]] eqn:EA; cbn [length] in ElA; try lia.
+      destruct b as [|y rb] eqn:Eb; [congruence|]. cbn [length] in Nlb, Hlb.
+      assert (Hrb : rb <> []) by (destruct rb; cbn [length] in *; [lia|discriminate]).
+      assert (Hxy : eea x y = true).
+      { assert (H1 : prefix_len true [x] (y :: rb) = 1) by (fold len; exact E1).
+        cbn [prefix_len] in H1. destruct (eea x y) eqn:He; auto. cbn [andb orb] in H1.
+        destruct x as [s|l], y as [s'|l']; cbn [gseg_eqb eea] in *; try (cbn in H1; discriminate).
+        - destruct (sseg_eqb s s') eqn:E; [|discriminate].
+          apply sseg_eqb_eea in E. congruence.
+        - destruct (list_eqb tree_eqb l l'); discriminate. }
+      destruct x as [s|l].
+      2:{ destruct y as [s'|l']; [discriminate|].
+          destruct other as [pb kb vb ab cb]. unfold b, path in Eb. cbn [pre kids] in Eb.
+          apply GL_last_path in Eb. destruct Eb as [Eb _]. congruence. }
+      destruct y as [s'|l']; [|discriminate]. cbn [eea] in Hxy.
+      pose proof (head_alias_free other s' rb Ho Eb Hrb) as Hal.
+      pose proof (rest_good other s' rb Ho Eb Hrb) as Hrl.
+      cbn [nth skipn galias].
+      split.
+      * unfold of_path. cbn [split_path]. rewrite good_some.
+        cbn [alias_free forallb]. rewrite Hal. cbn [is_some negb andb].
+        rewrite good_slf, Hrl. reflexivity.
+      * intros st. cbn [gden flat_map app].
+        rewrite (rest_den rb (step st s') Hrb).
+        unfold from_path, of_path. cbn [split_path]. rewrite den_eq. cbn [path_is_empty pre kids].
+        unfold den_body. cbn [fold_left].
+        rewrite step_self_alias by assumption. apply SameSet_refl.
+    + assert (Hge : 2 <= len) by (destruct A; [congruence|cbn [length] in ElA; lia]).
+      apply (Hfin (len - 1)); lia.
+  - (* b exhausted, a longer *)
+    destruct (Nat.eqb_spec len 1) as [E1|N1].
+    + rewrite E1 in *.
+      destruct b as [|y [|y2 rb]] eqn:Eb; cbn [length] in Elb; try lia.
+      destruct A as [|x ra] eqn:EA; [congruence|]. cbn [length] in NlA, HlA.
+      assert (Hra : ra <> []) by (destruct ra; cbn [length] in *; [lia|discriminate]).
+      assert (Hc : S (length ra) <> 1 \/ 1 = 1 \/ 1 = 0) by lia.
+      specialize (Hroot Hc). cbn [firstn list_eqb] in Hroot. rewrite andb_true_r in Hroot.
+      destruct x as [s|l].
+      2:{ apply GL_last_path in EA. destruct EA as [EA _]. congruence. }
+      apply gseg_eqb_GS in Hroot. subst y.
+      pose proof (head_alias_free (Node pa ka v a c) s ra Hs EA Hra) as Hal.
+      pose proof (rest_good (Node pa ka v a c) s ra Hs EA Hra) as Hrl.
+      cbn [nth skipn galias]. rewrite Hal.
+      split.
+      * unfold of_path. cbn [split_path]. rewrite good_some.
+        cbn [alias_free forallb]. rewrite Hal. cbn [is_some negb andb].
+        rewrite good_slf, Hrl. reflexivity.
+      * intros st. cbn [gden flat_map app].
+        rewrite (rest_den ra (step st s) Hra).
+        unfold from_path, of_path. cbn [split_path]. rewrite den_eq. cbn [path_is_empty pre kids].
+        unfold den_body. cbn [fold_left].
+        pose proof (step_nonempty st s) as Hne.
+        destruct (step st s) as [|t st'] eqn:Est; [congruence|]. cbn [step].
+        intros z. cbn [In app]. rewrite in_app_iff. cbn [In]. tauto.
+    + assert (Hge : 2 <= len) by (destruct b; [congruence|cbn [length] in Elb; lia]).
+      apply (Hfin (len - 1)); lia.
+  - (* both longer *)
+    assert (Hc : length A <> 1 \/ length b = 1 \/ len = 0) by lia.
+    destruct ka as [l|].
+    + destruct (Nat.eqb_spec len (length pa)) as [Ep|Np].
+      * destruct (Hinner l eq_refl Ep ltac:(lia)) as [Hg Hd].
+        specialize (Hroot Hc). unfold A in Hroot at 1.
+        rewrite Ep, (firstn_path (length pa) pa (Some l)), firstn_all in Hroot by lia.
+        apply list_eqb_gseg_GS in Hroot. rewrite <- Ep in Hroot.
+        rewrite Hroot.
+        split.
+        -- unfold of_path. rewrite split_path_GL, good_some, Hg, andb_true_r.
+           rewrite good_some in Hs. apply andb_true_iff in Hs. tauto.
+        -- intros st. rewrite gden_app_GS. cbn [gden].
+           eapply SameSet_trans; [apply Hd|].
+           unfold A. rewrite gden_app_GS. cbn [klist gden].
+           assert (Eb : gden st b = gden (fold_left step pa st) (skipn len b)).
+           { rewrite <- (firstn_skipn len b) at 1. rewrite Hroot, gden_app_GS. reflexivity. }
+           rewrite Eb. unfold from_path. rewrite den_of_path by (apply skipn_nonempty; lia).
+           apply SameSet_refl.
+      * apply (Hfin len); lia.
+    + apply (Hfin len); lia.
+Qed.
+
+(* selection lemmas *)
+Lemma first_min_in ks : forall best r,
+  first_min best ks = Some r -> best = Some r \/ In (Some r) ks.
+Proof.
+  induction ks as [|[k|] ks IH]; intros best r H; cbn [first_min] in H; auto.
+  - destruct best as [bk|].
+    + destruct (Nat.ltb k bk).
+      * apply IH in H. destruct H as [H|H]; [inversion H; subst; right; left; reflexivity|right; right; exact H].
+      * apply IH in H. destruct H as [H|H]; [left; exact H|right; right; exact H].
+    + apply IH in H. destruct H as [H|H]; [inversion H; subst; right; left; reflexivity|right; right; exact H].
+  - apply IH in H. destruct H as [H|H]; [left; exact H|right; right; exact H].
+Qed.
+
+Lemma last_max_spec ks : forall i best j k,
+  last_max i best ks = Some (j, k) ->
+  best = Some (j, k) \/ (i <= j /\ nth_error ks (j - i) = Some (Some k)).
+Proof.
+  induction ks as [|[k0|] ks IH]; intros i best j k H; cbn [last_max] in H; auto.
+  - assert (Hnew : last_max (S i) (Some (i, k0)) ks = Some (j, k) ->
+                   best = Some (j, k) \/ i <= j /\ nth_error (Some k0 :: ks) (j - i) = Some (Some k)).
+    { intros H'. apply IH in H'. destruct H' as [H'|[H1 H2]].
+      - inversion H'; subst. right. split; [lia|]. replace (j - j) with 0 by lia. reflexivity.
+      - right. split; [lia|]. replace (j - i) with (S (j - S i)) by lia. exact H2. }
+    assert (Hold : last_max (S i) best ks = Some (j, k) ->
+                   best = Some (j, k) \/ i <= j /\ nth_error (Some k0 :: ks) (j - i) = Some (Some k)).
+    { intros H'. apply IH in H'. destruct H' as [H'|[H1 H2]]; [left; exact H'|].
+      right. split; [lia|]. replace (j - i) with (S (j - S i)) by lia. exact H2. }
+    destruct best as [[bi bk]|]; [destruct (Nat.ltb k0 bk)|]; auto.
+  - apply IH in H. destruct H as [H|[H1 H2]]; [left; exact H|].
+    right. split; [lia|]. replace (j - i) with (S (j - S i)) by lia. exact H2.
+Qed.
+
+Lemma nth_error_map' {A B} (f : A -> B) l : forall i y,
+  nth_error (map f l) i = Some y -> exists x, nth_error l i = Some x /\ f x = y.
+Proof.
+  induction l as [|x l IH]; intros [|i] y H; cbn [map nth_error] in *; try discriminate.
+  - inversion H; subst. eauto.
+  - apply IH; assumption.
+Qed.
+
+Lemma apply_at_split (f : tree -> tree) (g : tree -> bool) l : forall i x,
+  nth_error l i = Some x ->
+  exists l1 l2, l = l1 ++ x :: l2 /\ apply_at f i l = l1 ++ f x :: l2 /\ check_at g i l = g x.
+Proof.
+  induction l as [|y l IH]; intros [|i] x H; cbn [nth_error] in H; try discriminate.
+  - inversion H; subst. exists [], l. repeat split.
+  - destruct (IH i x H) as [l1 [l2 [E1 [E2 E3]]]].
+    exists (y :: l1), l2. cbn [apply_at check_at app].
+    fold (apply_at f). fold (check_at g). rewrite E2, E3, <- E1. repeat split.
+Qed.
+
+Lemma share_prefix_nonempty t u m :
+  share_prefix t u m = true -> path_is_empty t = false /\ path_is_empty u = false.
+Proof.
+  unfold share_prefix. destruct (path_is_empty t); [discriminate|].
+  destruct (path_is_empty u); [cbn; discriminate|]. auto.
+Qed.
+
+Lemma path_head_len1 t x : path_len t = 1 -> path_head t = Some x -> path t = [x].
+Proof.
+  destruct t as [[|s [|s2 p]] [l|] v a c]; unfold path_len, path_head, path;
+    cbn [pre kids length klist map app]; intros H1 H2; try lia; inversion H2; reflexivity.
+Qed.
+
+Lemma choice_keep m trees u :
+  inner_choice m trees u = CKeep ->
+  exists k, In k trees /\ forall st, den st u = den st k.
+Proof.
+  unfold inner_choice.
+  destruct (Nat.eqb (path_len u) 1 && match m with SPCrate => true | _ => false end) eqn:Ec.
+  - apply andb_true_iff in Ec. destruct Ec as [Hu Hm]. apply Nat.eqb_eq in Hu.
+    destruct m; try discriminate.
+    destruct (first_min None _) as [[|[|n]]|] eqn:Ef; try discriminate. intros _.
+    apply first_min_in in Ef. destruct Ef as [Ef|Ef]; [discriminate|].
+    apply in_map_iff in Ef. destruct Ef as [k [Ek Hk]].
+    destruct (share_prefix k u SPCrate) eqn:Es; [|discriminate]. inversion Ek as [Ek'].
+    exists k. split; [assumption|]. intros st.
+    destruct (share_prefix_nonempty _ _ _ Es) as [N1 N2].
+    unfold share_prefix in Es. rewrite N1, N2 in Es. cbn [orb] in Es.
+    destruct (is_some (attrs k) || contains_comment k || negb (same_visibility k u)); [discriminate|].
+    destruct (path_head k) as [x|] eqn:Hx; [|discriminate].
+    destruct (path_head u) as [y|] eqn:Hy; [|discriminate].
+    rewrite !den_gden by assumption.
+    rewrite (path_head_len1 k x Ek' Hx), (path_head_len1 u y Hu Hy).
+    symmetry. apply list_eqb_gseg_gden. cbn [list_eqb]. rewrite Es. reflexivity.
+  - destruct m.
+    + destruct (last_max 0 None _) as [[i [|[|k]]]|]; discriminate.
+    + destruct (last_max 0 None _) as [[i [|[|k]]]|]; discriminate.
+    + destruct (last_max 0 None _) as [[i [|k]]|]; discriminate.
+Qed.
+
+Lemma choice_merge_valid m trees u i :
+  inner_choice m trees u = CMerge i -> i < length trees.
+Proof.
+  unfold inner_choice.
+  assert (H : forall (f : tree -> option nat) j k,
+             last_max 0 None (map f trees) = Some (j, k) -> j < length trees).
+  { intros f j k H. apply last_max_spec in H. destruct H as [H|[_ H]]; [discriminate|].
+    rewrite Nat.sub_0_r in H.
+    assert (Hs : nth_error (map f trees) j <> None) by congruence.
+    apply nth_error_Some in Hs. rewrite map_length in Hs. exact Hs. }
+  destruct (Nat.eqb (path_len u) 1 && _).
+  - destruct (first_min None _) as [[|[|n]]|]; discriminate.
+  - destruct m.
+    + destruct (last_max 0 None _) as [[j [|[|k]]]|] eqn:E; try discriminate.
+      intros E'; inversion E'; subst. eapply H; eauto.
+    + destruct (last_max 0 None _) as [[j [|[|k]]]|] eqn:E; try discriminate.
+      intros E'; inversion E'; subst. eapply H; eauto.
+    + destruct (last_max 0 None _) as [[j [|k]]|] eqn:E; try discriminate.
+      intros E'; inversion E'; subst. eapply H; eauto.
+Qed.
+
+Lemma forallb_In {A} (f : A -> bool) l x : forallb f l = true -> In x l -> f x = true.
+Proof. intros H. rewrite forallb_forall in H. apply H. Qed.
+
+Lemma inner_ok m (mrg : tree -> tree) (clash : tree -> bool) trees u :
+  forallb good trees = true -> good u = true ->
+  (forall i x, inner_choice m trees u = CMerge i -> nth_error trees i = Some x ->
+      good (mrg x) = true /\ forall st, SameSet (den st (mrg x)) (den st x ++ den st u)) ->
+  forallb good (inner_with cmp mrg m trees u) = true /\
+  forall st, SameSet (flat_map (den st) (inner_with cmp mrg m trees u))
+                     (flat_map (den st) trees ++ den st u).
+Proof.
+  intros Hg Hu Hm. unfold inner_with.
+  destruct (inner_choice m trees u) as [|i|] eqn:Ec.
+  - split; [assumption|]. intros st. apply SameSet_sym, SameSet_dup.
+    destruct (choice_keep _ _ _ Ec) as [k [Hk Hd]]. intros z Hz.
+    apply in_flat_map. exists k. split; [assumption|]. rewrite <- Hd. assumption.
+  - pose proof (choice_merge_valid _ _ _ _ Ec) as Hi.
+    destruct (nth_error trees i) as [x|] eqn:En; [|apply nth_error_None in En; lia].
+    destruct (Hm i x eq_refl En) as [Hgx Hdx].
+    destruct (apply_at_split mrg clash trees i x En) as [l1 [l2 [E1 [E2 _]]]].
+    rewrite E2. subst trees. rewrite forallb_app in *. cbn [forallb] in *.
+    apply andb_true_iff in Hg. destruct Hg as [G1 G2]. apply andb_true_iff in G2. destruct G2 as [_ G2].
+    split; [rewrite G1, Hgx, G2; reflexivity|].
+    intros st z. rewrite !flat_map_app. cbn [flat_map]. rewrite !in_app_iff.
+    rewrite (Hdx st z), in_app_iff. tauto.
+  - split.
+    + rewrite (forallb_perm _ _ _ (sort_perm _ cmp _)), forallb_app. cbn [forallb].
+      rewrite Hg, Hu. reflexivity.
+    + intros st. eapply SameSet_trans; [apply SameSet_flat_map_l, SameSet_perm, sort_perm|].
+      rewrite flat_map_app. cbn [flat_map]. rewrite app_nil_r. apply SameSet_refl.
+Qed.
+
+Lemma of_path_good_nonempty np v a c : good (of_path np v a c) = true -> np <> [].
+Proof. intros H E. subst np. discriminate. Qed.
+
+Theorem merge_ok m : forall self other,
+  good self = true -> good other = true -> merge_clash m self other = false ->
+  good (merge cmp m self other) = true /\
+  forall st, SameSet (den st (merge cmp m self other)) (den st self ++ den st other).
+Proof.
+  assert (Hfinish : forall pa ka v a c other inner,
+    good (Node pa ka v a c) = true -> good other = true ->
+    match merge_rest_with cmp inner pa ka (path other)
+            (prefix_len true (map GS pa ++ klist ka) (path other)) with
+    | Some np => good (of_path np v a c) = true /\
+                 forall st, SameSet (gden st np)
+                              (gden st (map GS pa ++ klist ka) ++ gden st (path other))
+    | None => forall st, gden st (path other) = gden st (map GS pa ++ klist ka)
+    end ->
+    let r := match merge_rest_with cmp inner pa ka (path other)
+                     (prefix_len true (map GS pa ++ klist ka) (path other)) with
+             | Some np => of_path np v a c
+             | None => Node pa ka v a c
+             end in
+    good r = true /\
+    forall st, SameSet (den st r) (den st (Node pa ka v a c) ++ den st other)).
+  { intros pa ka v a c other inner Hs Ho H r. subst r.
+    assert (Es : forall st, den st (Node pa ka v a c) = gden st (map GS pa ++ klist ka)).
+    { intros st. rewrite den_gden by (apply good_nonempty; assumption). reflexivity. }
+    assert (Eo : forall st, den st other = gden st (path other)).
+    { intros st. apply den_gden, good_nonempty; assumption. }
+    destruct (merge_rest_with _ _ _ _ _ _) as [np|].
+    - destruct H as [Hg Hd]. split; [assumption|]. intros st.
+      rewrite den_of_path by (eapply of_path_good_nonempty; eassumption).
+      rewrite Es, Eo. apply Hd.
+    - split; [assumption|]. intros st. apply SameSet_sym, SameSet_dup.
+      intros z. rewrite Es, Eo, H. auto. }
+  induction self as [pa v a c|pa l v a c IH] using tree_ind'; intros other Hs Ho Hc;
+    cbn [merge]; cbn [merge_clash] in Hc; apply orb_false_iff in Hc; destruct Hc as [Hrc Hc].
+  - apply Hfinish; auto.
+    apply (merge_rest_ok _ pa None v a c other Hs Ho Hrc). intros l E; discriminate.
+  - apply Hfinish; auto.
+    apply (merge_rest_ok _ pa (Some l) v a c other Hs Ho Hrc).
+    intros l0 E Hlen Hlb u. inversion E; subst l0. clear E.
+    set (A := map GS pa ++ klist (Some l)) in *.
+    set (len := prefix_len true A (path other)) in *.
+    assert (HlA : length A = length pa + 1).
+    { unfold A. rewrite app_length, map_length. reflexivity. }
+    rewrite good_some in Hs. apply andb_true_iff in Hs. destruct Hs as [Hs1 Hs2].
+    assert (Hgu : good u = true).
+    { apply good_suffix; [assumption|]. rewrite <- path_len_length. assumption. }
+    apply (inner_ok m _ (fun t => merge_clash m t u)); auto.
+    intros i x Ech En.
+    rewrite Forall_forall in IH.
+    apply IH.
+    + eapply nth_error_In; eassumption.
+    + eapply forallb_In; [eassumption|]. eapply nth_error_In; eassumption.
+    + assumption.
+    + rewrite HlA in Hc.
+      replace (Nat.eqb (length pa + 1) len) with false in Hc by (symmetry; apply Nat.eqb_neq; lia).
+      replace (Nat.eqb (length (path other)) len) with false in Hc
+        by (symmetry; apply Nat.eqb_neq; lia).
+      replace (Nat.eqb len (length pa)) with true in Hc by (symmetry; apply Nat.eqb_eq; lia).
+      cbn [negb andb] in Hc. fold u in Hc. rewrite Ech in Hc.
+      destruct (apply_at_split (fun t => t) (fun t => merge_clash m t u) l i x En)
+        as [l1 [l2 [_ [_ E3]]]].
+      rewrite E3 in Hc. exact Hc.
+Qed.
+End Merge.
